@@ -32,6 +32,8 @@ def contract_items(pid, tier="thorough", **extra):
         for c in getattr(mod, "CANARIES", []):
             if pid in getattr(c, "props", ()):
                 items.append(dict(kind="canary", spec=f"{m}:{type(c).__name__}"))
+    # the assumed library contracts of the trusted base, checked at run time against the installed libraries
+    items.append(dict(kind="bounded", spec="lemmas.l_assume:conformance"))
     return items
 
 
